@@ -29,6 +29,10 @@ def write_project(sb, rng):
     add("vendor/deep/v2.rs", big)
     add("tests/t_a.rs", rng.choice([small, big]))
     add("docs/readme.md", 3)
+    # sibling directories whose NAMES begin with another root's name: separate roots, never nested
+    add("src-gen/big.rs", big)
+    add("src-gen/ok.rs", small)
+    add("src2/other.rs", rng.choice([small, big]))
     for rel, body in files.items():
         sb.write(rel, body)
     return files
@@ -97,8 +101,9 @@ def canon_path(p, proj):
     return ("/" if p.startswith("/") else "") + "/".join(comps) or "."
 
 
-def run_check(sb, exe, sp, extra=(), sub="src"):
-    rc, out, err = sb.run(exe, ["check", *args_for(sp, sb.proj, sub), "--format", "json", "--color", "never", "--no-sloc-cache", *extra],
+def run_check(sb, exe, sp, extra=(), sub="src", roots=None):
+    targets = roots if roots is not None else args_for(sp, sb.proj, sub)
+    rc, out, err = sb.run(exe, ["check", *targets, "--format", "json", "--color", "never", "--no-sloc-cache", *extra],
                           env={"RAYON_NUM_THREADS": "2", "PWD": sb.home})
     res = {}
     try:
@@ -173,6 +178,20 @@ def run(ctx):
                 d = [x for x in d if x[0][0] == "src" or x[0][0].startswith("src/")]
                 if d:
                     fails.append(("sub-directory spelling %s: common paths differ from the whole-project run" % sp, cfg, {"diff": d[:6]}))
+            # several roots at once, in both orders and under several spellings: every path below one of the
+            # roots has the status it has in the whole-project run (a root is never "nested" in a sibling whose
+            # name merely starts with the same characters)
+            for names in (["src", "src-gen"], ["src-gen", "src"], ["src", "src2", "src-gen"], ["src2", "src"]):
+                style = ctx.rng.choice(["plain", "dot", "abs", "slash"])
+                roots = [{"plain": n, "dot": "./" + n, "abs": os.path.join(sb.proj, n), "slash": n + "/"}[style] for n in names]
+                rc, res = run_check(sb, exe, None, roots=roots)
+                evals += 1
+                def below(k):
+                    return isinstance(k, tuple) and any(k[0] == n or k[0].startswith(n + "/") for n in names)
+                d = [(k, base.get(k), res.get(k)) for k in sorted(set(base) | set(res), key=str) if below(k) and base.get(k) != res.get(k)]
+                if d:
+                    fails.append(("roots %s: paths below the roots differ from the whole-project run" % roots, cfg, {"diff": d[:6]}))
+                hist["multi_root"] = hist.get("multi_root", 0) + 1
             # baseline written under one spelling, honoured under the others
             wsp = ctx.rng.choice(SPELLINGS)
             bl = os.path.join(sb.base, "baseline.json")
